@@ -251,8 +251,16 @@ class Check:
         if not self.validate:
             return []
         names = list(self.validate)
-        with mp.get_context("fork").Pool(1) as pool:
-            mine = pool.apply(_scenarios_in_interpreter, (names,))
+        # bounded: a changed tree may make a concrete scenario run for ever (in the interpreter as in the real build)
+        pool = mp.get_context("fork").Pool(1)
+        try:
+            mine = pool.apply_async(_scenarios_in_interpreter, (names,)).get(timeout=int(os.environ.get("VERIF_VALIDATE_TIMEOUT", "420")))
+        except mp.TimeoutError:
+            pool.terminate()
+            return [("encoder-validation", "the interpreter did not finish the concrete scenarios %s within the time limit" % names)]
+        finally:
+            pool.terminate()
+            pool.join()
         verdict, r = run_replay(build, ("replay_drivers.scenarios", "replay"), {"scenarios": names}, timeout=300)
         real = (r or {}).get("outputs") if isinstance(r, dict) else None
         bad = []
